@@ -250,5 +250,67 @@ PROPS["C04"] = {
     "level_note": "end() is assumed not to raise; max_chunks_per_worker = math.inf (no quota) is the bounded layer's case.",
 }
 
+_POOL_TRUST = ["pyvc VC generator (/verif/pyvc)", "z3", "Python semantics as listed in DESIGN.md §2.3",
+               "demonic queue environment (DESIGN §5.1): queues deliver every item exactly once, in any order, at any time; the pigeonhole "
+               "facts of the channel model (received <= sent, all received when the counts agree) are assumed",
+               "rely/guarantee composition (DESIGN §5.2): consumer verified against the feeder's step R applied before every read of a shared "
+               "flag and every environment call; feeder verified to establish J and R after every shared write; sequentially consistent "
+               "attribute reads/writes (GIL)",
+               "worker loop body contract (proved in C04), Buffer contracts (proved in C15)",
+               "threading.Event / Thread.start / join, Lock as environment contracts"]
+PROPS["C01"] = {
+    "units": ["contracts.c01_ownpools", "contracts.c03_factory", "contracts.c04_worker", "contracts.c15_buffers"],
+    "bounded": True,
+    "level": "other",
+    "trusted_base": _POOL_TRUST,
+    "explanation": "Deductive (unbounded; for EVERY interleaving of consumer, feeder and workers, every arrival order, chunk size, queue bound): "
+                   "rely/guarantee proof over the real code of FunctorPool.imap, imap_unordered, _get_results, SendWorkThread.__init__/run (with "
+                   "its nested chunking generator) and CMThread. The protocol invariant J ties the two unlocked flags to the ghost channel: the "
+                   "chunks sent so far are consecutive non-empty slices of the input and, once _sending_work is False, _data_cnt is the number "
+                   "of chunks sent and they cover the input. The consumer is verified with the feeder's step applied before every read of "
+                   "_sending_work / _data_cnt (stale, torn and reordered observations included): imap yields exactly [f(x) for x in data] in "
+                   "order; imap_unordered yields the concatenation of the f-mapped chunks in arrival order, the arrival order being a proved "
+                   "bijection on the chunk indices; at exit nothing is in flight. The feeder establishes J after every write and attaches the "
+                   "next index to every work item; SendWorkThread.__init__ establishes J before the feeder thread exists (no flag of an earlier "
+                   "call is ever visible). FactoryFunctorPool.imap/imap_unordered inherit the result through the base contract. The worker "
+                   "half (one result (i,[f(x)..]) per item (i,c)) is the C04 unit. Bounded: real-process runs and the controlled scheduler.",
+    "level_text": "Thread-modular (rely/guarantee) proof of consumer and feeder under the demonic queue environment; bounded real runs in addition.",
+    "level_note": "Full consumption of the generator is assumed (abandoned generators are outside the property's quantifier); f pure and total.",
+}
+PROPS["C03"] = {
+    "units": ["contracts.c03_factory", "contracts.c01_ownpools"],
+    "bounded": True,
+    "level": "other",
+    "trusted_base": _POOL_TRUST + ["a retirement notice on the replace queue names a current, retired, not yet joined member of procs (environment)"],
+    "explanation": "Deductive: (1) consecutive calls - imap / imap_unordered require only 'call-idle' (feeder done, every sent result consumed) and "
+                   "re-establish it, the per-call state (flags, ghost channel, fresh Buffer) is reset by SendWorkThread.__init__ in the calling "
+                   "thread, so any sequence of fully consumed calls is a sequence of independent C01 instances; (2) replacement - "
+                   "ReplaceWorkerThread.run ends only by consuming exactly one stop token (none stays for the next call; stop() puts exactly one "
+                   "per call), every retirement notice is answered by joining the retired worker BEFORE its slot is overwritten (no started and "
+                   "unjoined worker ever leaves procs), the successor gets a fresh unique wid, the pool's queues and the replace queue, and is "
+                   "started in the same slot: the number of workers is constant and every slot always holds a started worker; the RuntimeError "
+                   "branch is unreachable because wids stay unique. Bounded: histories of calls on real pools incl. retirement exactly at the "
+                   "end of a call (known finding F13 belongs to C02).",
+    "level_text": "Proof of the call-boundary contract and of the replace thread's loop; bounded call histories on real pools.",
+    "level_note": "That a worker which retired after the stop token was consumed is replaced at the start of the NEXT call follows from the "
+                  "run contract (notices are never dropped) but 'work pending while all workers retired' is only covered by the bounded layer.",
+}
+PROPS["C02"] = {
+    "units": ["contracts.c01_ownpools", "contracts.c03_factory"],
+    "bounded": True,
+    "level": "other",
+    "trusted_base": _POOL_TRUST + ["progress of workers, queues and the scheduler (fairness) - termination proper is NOT proved"],
+    "explanation": "Termination is a liveness property: contracts decide only its safety surrogates, deductively and for every schedule - "
+                   "(T1) no unbounded blocking get: _get_results uses get(timeout=...) / get(block=False) only (owed@get is the precondition of "
+                   "an unbounded get: none is reachable); (T2) the consumer leaves its loop exactly when the feeder is done and every sent chunk "
+                   "was consumed (exit condition + J), and cannot leave earlier or stay with nothing owed; (T3) the feeder's early break is "
+                   "unreachable in fully consumed calls; (T4) owed@join: every join (CMThread.stop/__exit__, worker join in the replace thread) "
+                   "is called only on a thread that has finished or was given what makes it finish (feeder done; stop token put; worker "
+                   "retired). The bounded layer explores real schedules with a watchdog / deadlock detection.",
+    "level_text": "Safety surrogates of termination proved by contract (owed@ obligations); liveness itself only by bounded exploration.",
+    "level_note": "Honest limit of the technique: fairness / progress cannot be expressed as a pre/postcondition; flow control (run_event) "
+                  "waits are not covered deductively. Known finding F13 (retire-at-end-then-exit) is reported by the bounded layer.",
+}
+
 # properties not claimed, with the reason (everything else not in PROPS gets the generic "not built yet" reason)
 NOT_APPLICABLE = {}
